@@ -422,6 +422,8 @@ def run(prog, ctx):
     # ---------------- C08.K a decision taken after a call that changes a counter looks at the counter after it (common.stale_count_decisions)
     C.stale_count_rule(res, prog, "C08.K", "countmin::", "Count-Min sketch")
     # the hash every slot / row / bucket is derived from is the published one for every way of feeding it (C16 rules on the murmur state)
+    n_z = C.emptiness_rule(res, prog, "C08.Z", ["countmin"])
+    res.rule("C08.Z", n_z, 1, "the image's EMPTY flag follows total_weight (a sketch halved to zero counters still has a weight)")
     C.import_rules(res, prog, ctx, "C08.H", "C16", ("C16.B", "C16.C", "C16.T", "C16.K", "C16.W"), "MurmurHash3 the Count-Min buckets are derived from", 0, key_filter=lambda k: "urmur" in k)
     res.explanation = ("structural and formula rules over the %d functions reachable from the Count-Min update/estimate/merge/halve/decay entry points: "
                        "index formula and sibling agreement between update and estimate, all-rows loops, element-wise merge, totals" % len(reach))
